@@ -33,25 +33,27 @@ var routes = []route{
 }
 
 type env struct {
-	t        *testing.T
-	r        *ev.Run
-	cfg      string // "split" (different addresses) | "shared" (one address)
-	n        *node.Node
-	intHP    string
-	pubHP    string
-	probe    *stateProbe
-	last     map[string]int64
-	cap      *audit.CapturedLog
-	kr       *keyring
-	gen      *credGen
-	creds    []cred
-	dispatch map[string]bool // (cfg,listener,route,form) -> a conforming token reached the handler
-	bypass   map[string]bool // form classes that reached a handler without any credential
-	byForm   map[string]int
-	byRoute  map[string]int
-	byVerd   map[string]int
-	byKind   map[string]int
-	sampled  map[string]bool
+	t     *testing.T
+	r     *ev.Run
+	cfg   string // "split" (different addresses) | "shared" (one address)
+	n     *node.Node
+	intHP string
+	pubHP string
+	probe *stateProbe
+	last  map[string]int64
+	cap   *audit.CapturedLog
+	kr    *keyring
+	// calibration failures that are judged at the end of the run (see calibrate)
+	deferredBroken []string
+	gen            *credGen
+	creds          []cred
+	dispatch       map[string]bool // (cfg,listener,route,form) -> a conforming token reached the handler
+	bypass         map[string]bool // form classes that reached a handler without any credential
+	byForm         map[string]int
+	byRoute        map[string]int
+	byVerd         map[string]int
+	byKind         map[string]int
+	sampled        map[string]bool
 }
 
 type result struct {
@@ -323,6 +325,9 @@ func (e *env) finish() {
 	e.r.Extra(pre+"target_forms_dispatched_with_conforming_token", disp)
 	e.r.Extra(pre+"sql_tables_watched", len(e.probe.tables))
 	e.n.Stop()
+	if len(e.deferredBroken) > 0 && e.r.Violations() == 0 {
+		e.r.Fatalf("harness calibration (%s listeners): %s", e.cfg, strings.Join(e.deferredBroken[:min(3, len(e.deferredBroken))], "; "))
+	}
 }
 
 func uniq(s []string) []string {
@@ -373,6 +378,7 @@ func TestCheck(t *testing.T) {
 	calibrate(e)
 	tokenMatrix(e)
 	formMatrix(e)
+	paramValues(e)
 	e.finish()
 }
 
@@ -389,7 +395,11 @@ func calibrate(e *env) {
 			}
 			res := e.internal(rt, origin(rt), c)
 			if res.granted != 1 {
-				e.broken("harness calibration: expected one AccessGranted audit entry for %s on %s, saw %d", c.class, rt.name, res.granted)
+				// A conforming token that reaches the handler without an AccessGranted audit entry means no authentication ran at all
+				// for this request. That is either a harness problem or the very misbehaviour the matrix below exposes (requests
+				// without a token reaching handlers): carry on, and end as broken only if the matrix reports no violation.
+				e.deferredBroken = append(e.deferredBroken, fmt.Sprintf("expected one AccessGranted audit entry for %s on %s, saw %d (%s)", c.class, rt.name, res.granted, res.o))
+				continue
 			}
 			e.r.Count("calibration_requests_admitted", 1)
 		}
@@ -477,6 +487,24 @@ func formMatrix(e *env) {
 				e.internal(rt, f, other[rnd.Intn(len(other))])
 			}
 		}
+	}
+}
+
+// paramValues: hostile path-parameter values on a parameterised route (always run, also in the quick tier, where the full matrix
+// only covers the two unparameterised routes).
+func paramValues(e *env) {
+	rnd := e.r.Rand("paramvalues-" + e.cfg)
+	e.refreshCreds()
+	valid, none := e.cred("valid/ed25519/kid-ssh"), e.cred("authz/none")
+	invalid := byVerdict(e.creds, vInvalid)
+	rt := routes[2] // GET /internal/vdr/v2/subject/:id
+	for _, f := range forms(rt.path, e.intHP, rnd, 0) {
+		if f.class != "param-value" {
+			continue
+		}
+		e.internal(rt, f, valid)
+		e.internal(rt, f, none)
+		e.internal(rt, f, invalid[rnd.Intn(len(invalid))])
 	}
 }
 
